@@ -3,6 +3,11 @@
 (* specification itself supplies y(T):                                           *)
 (*   "rat"   y' = -y^2,      y(0) = 1   =>  y(T) = 1/(1+T)                       *)
 (*   "tdep"  y' = -2 t y^2,  y(0) = 1   =>  y(T) = 1/(1+T^2)                     *)
+(*   "pair"  a coupled system with components of different magnitude:            *)
+(*           y1' = -y1 y2, y2' = -y2^2, y3' = -2 t y3^2 / A;  y(0) = (3, 1, A)    *)
+(*           =>  y(T) = (3/(1+T), 1/(1+T), A/(1+T^2)),  A = 2^-20                 *)
+(*           (the error norm of the controller is component-wise: an error norm  *)
+(*           dominated by the large components loses the small one)              *)
 (* with T = k/8.  Amp is a bound on the problem's own error amplification        *)
 (* |dy(T)/dy(0)| = y(T)^2 (and at least 1).                                      *)
 (* With $VF_OUT and no $VF_IN the module writes the case list (generator); with  *)
@@ -10,17 +15,25 @@
 (* ceil(|y_obs - y(T)| / (atol + rtol |y(T)|)) computed in exact arithmetic.     *)
 EXTENDS Integers, Sequences, FiniteSets, TLC, Json, IOUtils, Bounds, SequencesExt
 
-Problems == {"rat", "tdep", "tdepsmall"}     \* tdepsmall: y' = -2 t y^2 / A, y(0) = A = 2^-20, y(T) = A/(1+T^2)
+Problems == {"rat", "tdep", "tdepsmall", "pair"}     \* tdepsmall: y' = -2 t y^2 / A, y(0) = A = 2^-20, y(T) = A/(1+T^2)
 Ks == {-4, -3, 4, 8, 16}         \* T = k/8 : -1/2, -3/8, 1/2, 1, 2
-ExactNum(p, k) == IF p = "rat" THEN 8 ELSE 64
-ExactDen(p, k) == IF p = "rat" THEN 8 + k ELSE IF p = "tdep" THEN 64 + k * k ELSE (64 + k * k) * 1048576
+ExactNum(p, k) == IF p = "rat" THEN 8 ELSE IF p = "pair" THEN 24 ELSE 64
+ExactDen(p, k) == IF p \in {"rat", "pair"} THEN 8 + k ELSE IF p = "tdep" THEN 64 + k * k ELSE (64 + k * k) * 1048576
+(* all components; the scalar problems have one *)
+Comps(p, k) == IF p = "pair" THEN <<[num |-> 24, den |-> 8 + k], [num |-> 8, den |-> 8 + k], [num |-> 64, den |-> (64 + k * k) * 1048576]>>
+               ELSE <<[num |-> ExactNum(p, k), den |-> ExactDen(p, k)]>>
+Abs(x) == IF x < 0 THEN -x ELSE x
+Max2(a, b) == IF a > b THEN a ELSE b
+CeilDiv(a, b) == (a + b - 1) \div b
+(* pair: |dy1(T)/dy1(0)| + |dy1(T)/dy2(0)| = 1/(1+T) + 3|T|/(1+T)^2 = (8 (8+k) + 24 |k|) / (8+k)^2;  dy2(T)/dy2(0) = y2(T)^2 *)
+AmpPair(k) == Max2(1, Max2(CeilDiv(8 * (8 + k) + 24 * Abs(k), (8 + k) * (8 + k)), CeilDiv(64, (8 + k) * (8 + k))))
 (* ceil(y(T)^2) bounded below by 1 *)
 Amp(p, k) ==
     LET n == ExactNum(p, k) d == IF p = "tdepsmall" THEN 1 ELSE ExactDen(p, k)
         q == (n * n + d * d - 1) \div (d * d)
-    IN  IF p = "tdepsmall" THEN 1 ELSE IF q < 1 THEN 1 ELSE q
+    IN  IF p = "pair" THEN AmpPair(k) ELSE IF p = "tdepsmall" THEN 1 ELSE IF q < 1 THEN 1 ELSE q
 
-GenOut == [cases |-> SetToSeq({[problem |-> p, k |-> k, num |-> ExactNum(p, k), den |-> ExactDen(p, k), amp |-> Amp(p, k)]
+GenOut == [cases |-> SetToSeq({[problem |-> p, k |-> k, num |-> ExactNum(p, k), den |-> ExactDen(p, k), amp |-> Amp(p, k), comps |-> Comps(p, k)]
                                : p \in Problems, k \in Ks})]
 
 HasIn == "VF_IN" \in DOMAIN IOEnv
@@ -30,7 +43,7 @@ Cases == In.cases
 VARIABLES i, bad
 vars == <<i, bad>>
 CheckCase(o) ==
-    (IF o.num = ExactNum(o.problem, o.k) /\ o.den = ExactDen(o.problem, o.k) THEN {} ELSE {[id |-> o.id, clause |-> "C05.SensorUsedSpecSolution"]})
+    (IF o.num = ExactNum(o.problem, o.k) /\ o.den = ExactDen(o.problem, o.k) /\ o.comps = Comps(o.problem, o.k) THEN {} ELSE {[id |-> o.id, clause |-> "C05.SensorUsedSpecSolution"]})
     \cup (IF o.ok THEN {} ELSE {[id |-> o.id, clause |-> "C05.RunCompletes"]})
     \cup (IF o.ok /\ o.errUnits > AccuracyK * Amp(o.problem, o.k) THEN {[id |-> o.id, clause |-> "C05.GlobalErrorProportionalToTolerance"]} ELSE {})
     \cup (IF o.ok /\ o.endUnits > EndUnits THEN {[id |-> o.id, clause |-> "C05.ReachesTheEndTime"]} ELSE {})
